@@ -56,8 +56,25 @@ def rule_trajectory(chk, prog):
   v, ctx, env = ev.run(f)
   loc = (f.file, f.lineno)
   multi, _, menv = util.inner(ev, v, site)
+  # configuration shortcuts (e.g. `if outer_steps == 1: …`) are separate arms of the value: the main arm must be the
+  # outer scan, every other arm must still let the emitted frames depend on `start_with_input` (a necessary condition:
+  # for a step that changes the state, frame k differs between the two modes for every k)
+  def arms_of(t, cond=()):
+    if t.k == 'phi':
+      return arms_of(t.a[1], cond + (sym.show(t.a[0], maxdepth=3),)) + arms_of(t.a[2], cond + ('not ' + sym.show(t.a[0], maxdepth=3),))
+    return [(cond, t)]
+  arms = arms_of(multi)
+  scans = [(c, a) for c, a in arms if scan_call(a) is not None and scan_call(a)[0] == sym_('outer_scan_fn')]
+  for c, a in arms:
+    if (c, a) in scans:
+      continue
+    frames = a.a[1] if a.k == 'tuple' and len(a.a) == 2 else a
+    dep = sym.contains(frames, lambda t: t == sym_('start_with_input'))
+    chk.check(dep, rule, f'{site}: the shortcut taken when {" and ".join(c) or "always"} still selects its frames by `start_with_input`',
+              sym.show(frames, maxdepth=4)[:200], a.loc or loc, 'frames depend on start_with_input (incoming state first, or outgoing state)', sym.show(frames, maxdepth=4)[:200])
+  chk.require(len(scans) >= 1, f'{site}: no configuration of multistep is a call of outer_scan_fn: {sym.show(multi)[:120]}')
+  multi = scans[-1][1]
   sc = scan_call(multi)
-  chk.require(sc is not None and sc[0] == sym_('outer_scan_fn'), f'{site}: multistep is not a call of outer_scan_fn: {sym.show(multi)[:120]}')
   callee, stepf, init, xs, length = sc
   mfi, _ = ev.get_func(v)
   chk.check(init == sym_(mfi.param_names()[0]), rule, f'{site}: the outer scan starts from the given state', sym.show(init), multi.loc or loc)
